@@ -43,6 +43,7 @@ type entry struct {
 	sent                     string
 	nWatch, nTarget, nCommon int
 	loops                    map[string]string // local slice variable → binding field it maps with .Bytes()
+	errs                     [][3]string       // error reports: site, call shape, Idx expression
 }
 
 // mapBytesLoop recognises
@@ -213,9 +214,85 @@ func tableEntries(fset *token.FileSet, f *ast.File, table string, consts map[str
 			}
 			return true
 		})
+		en.errs = errorReports(fset, fl.Body)
 		out = append(out, en)
 	}
 	return out, nil
+}
+
+// errorReports finds every &OnchainError{…} literal of a table entry with the place it is built in
+// ("watch": the `if err != nil` after the Watch call; "subErr": the `<-sub.Err()` case of the loop),
+// the call it is handed to (with the literal replaced by _) and its Idx expression.
+func errorReports(fset *token.FileSet, body *ast.BlockStmt) [][3]string {
+	var out [][3]string
+	var stack []ast.Node
+	ast.Inspect(body, func(n ast.Node) bool {
+		if n == nil {
+			stack = stack[:len(stack)-1]
+			return true
+		}
+		stack = append(stack, n)
+		cl, ok := n.(*ast.CompositeLit)
+		if !ok || src(fset, cl.Type) != "OnchainError" {
+			return true
+		}
+		idx := "(unset)"
+		for _, e := range cl.Elts {
+			if kv, ok := e.(*ast.KeyValueExpr); ok && src(fset, kv.Key) == "Idx" {
+				idx = src(fset, kv.Value)
+			}
+		}
+		site, call := "other", "(none)"
+		for i := len(stack) - 2; i >= 0; i-- {
+			switch a := stack[i].(type) {
+			case *ast.CallExpr:
+				if call == "(none)" {
+					var args []string
+					for _, arg := range a.Args {
+						t := src(fset, arg)
+						if strings.Contains(t, "OnchainError{") {
+							t = "_"
+						}
+						args = append(args, t)
+					}
+					call = src(fset, a.Fun) + "(" + strings.Join(args, ", ") + ")"
+				}
+			case *ast.CommClause:
+				if site == "other" {
+					if a.Comm != nil && strings.Contains(src(fset, a.Comm), "<-sub.Err()") {
+						site = "subErr"
+					} else if a.Comm != nil {
+						site = "case:" + src(fset, a.Comm)
+					}
+				}
+			case *ast.IfStmt:
+				if site == "other" && src(fset, a.Cond) == "err != nil" {
+					site = "watch"
+				}
+			}
+		}
+		out = append(out, [3]string{site, call, idx})
+		return true
+	})
+	return out
+}
+
+// ctxValueKey: the string literal k of the ctx.Value(k) call inside helper function `name`
+func ctxValueKey(fset *token.FileSet, f *ast.File, name string) string {
+	fd := ex.FuncDecl(f, "", name)
+	if fd == nil {
+		return "(missing)"
+	}
+	key := "(none)"
+	ast.Inspect(fd.Body, func(n ast.Node) bool {
+		if call, ok := n.(*ast.CallExpr); ok {
+			if sel, ok := call.Fun.(*ast.SelectorExpr); ok && sel.Sel.Name == "Value" && len(call.Args) == 1 {
+				key = strings.Trim(src(fset, call.Args[0]), "\"")
+			}
+		}
+		return true
+	})
+	return key
 }
 
 type structDef struct {
@@ -398,6 +475,7 @@ structure Entry where
   common : List (String × String)    -- its literal, source text
   sent : String                      -- what is sent on ` + "`out`" + `
   counts : Nat × Nat × Nat           -- number of Watch calls, ` + "`l :=`" + ` literals, ` + "`log =`" + ` literals in the entry
+  errs : List (String × String × String)  -- every OnchainError literal: site (watch | subErr | …), call it is passed to, Idx expression
   deriving DecidableEq, Repr
 
 structure StructDef where
@@ -433,15 +511,22 @@ structure WatchMethod where
 		}
 		return "[" + strings.Join(s, ", ") + "]"
 	}
+	tripleList := func(ts [][3]string) string {
+		var s []string
+		for _, t := range ts {
+			s = append(s, fmt.Sprintf("(%s, %s, %s)", ex.LeanStr(t[0]), ex.LeanStr(t[1]), ex.LeanStr(t[2])))
+		}
+		return "[" + strings.Join(s, ", ") + "]"
+	}
 	b.WriteString("def entries : List Entry := [\n")
 	for i, e := range entries {
 		sep := ","
 		if i == len(entries)-1 {
 			sep = ""
 		}
-		fmt.Fprintf(&b, "  { table := %s, key := %s, index := %s, binding := %s,\n    watchRecv := %s, watch := %s, target := %s,\n    assigns := %s,\n    commonType := %s,\n    common := %s,\n    sent := %s, counts := (%d, %d, %d) }%s\n",
+		fmt.Fprintf(&b, "  { table := %s, key := %s, index := %s, binding := %s,\n    watchRecv := %s, watch := %s, target := %s,\n    assigns := %s,\n    commonType := %s,\n    common := %s,\n    sent := %s, counts := (%d, %d, %d),\n    errs := %s }%s\n",
 			ex.LeanStr(e.table), ex.LeanStr(e.key), e.index, ex.LeanStr(e.binding), ex.LeanStr(e.watchRecv), ex.LeanStr(e.watch), ex.LeanStr(e.target),
-			pairList(e.assigns, false), ex.LeanStr(e.commonType), pairList(e.common, true), ex.LeanStr(e.sent), e.nWatch, e.nTarget, e.nCommon, sep)
+			pairList(e.assigns, false), ex.LeanStr(e.commonType), pairList(e.common, true), ex.LeanStr(e.sent), e.nWatch, e.nTarget, e.nCommon, tripleList(e.errs), sep)
 	}
 	b.WriteString("]\n\n")
 	structList := func(name string, sds []structDef) {
@@ -464,6 +549,59 @@ structure WatchMethod where
 			sep = ""
 		}
 		fmt.Fprintf(&b, "  { pkg := %s, name := %s, sink := %s, event := %s }%s\n", ex.LeanStr(w[0]), ex.LeanStr(w[1]), ex.LeanStr(w[2]), ex.LeanStr(w[3]), sep)
+	}
+	b.WriteString("]\n\n")
+	// how an endpoint index gets into a context, and what the consumer's DisconnectWs does with it
+	fsP, fP, err := ex.Parse(filepath.Join(repo, "onchain", "eth_proxy.go"))
+	if err != nil {
+		return "", err
+	}
+	var withValues, appends [][2]string
+	if fd := ex.FuncDecl(fP, "ethAdaptor", "Connect"); fd != nil {
+		ast.Inspect(fd.Body, func(n ast.Node) bool {
+			switch x := n.(type) {
+			case *ast.CallExpr:
+				if src(fsP, x.Fun) == "context.WithValue" && len(x.Args) == 3 {
+					withValues = append(withValues, [2]string{strings.Trim(src(fsP, x.Args[1]), "\""), src(fsP, x.Args[2])})
+				}
+			case *ast.AssignStmt:
+				if len(x.Lhs) == 1 && len(x.Rhs) == 1 {
+					if call, ok := x.Rhs[0].(*ast.CallExpr); ok && src(fsP, call.Fun) == "append" && len(call.Args) == 2 && src(fsP, call.Args[0]) == src(fsP, x.Lhs[0]) {
+						l := src(fsP, x.Lhs[0])
+						if l == "e.wsCtxes" || l == "e.wsCancels" || l == "e.ctxes" || l == "e.cancels" {
+							appends = append(appends, [2]string{l, src(fsP, call.Args[1])})
+						}
+					}
+				}
+			}
+			return true
+		})
+	}
+	disc := "(missing)"
+	if fd := ex.FuncDecl(fP, "ethAdaptor", "DisconnectWs"); fd != nil {
+		disc = src(fsP, fd.Body)
+	}
+	var tableCalls []string
+	if fd := ex.FuncDecl(f, "ethAdaptor", "SubscribeEvent"); fd != nil {
+		ast.Inspect(fd.Body, func(n ast.Node) bool {
+			if call, ok := n.(*ast.CallExpr); ok {
+				if ix, ok := call.Fun.(*ast.IndexExpr); ok {
+					tableCalls = append(tableCalls, src(fset, ix.X)+"("+src(fset, call.Args[0])+", "+src(fset, call.Args[1])+")")
+				}
+			}
+			return true
+		})
+	}
+	fmt.Fprintf(&b, "/-- context key read by getIndex / getWsIndex -/\ndef getIndexKey : String := %s\ndef getWsIndexKey : String := %s\n\n", ex.LeanStr(ctxValueKey(fset, f, "getIndex")), ex.LeanStr(ctxValueKey(fset, f, "getWsIndex")))
+	fmt.Fprintf(&b, "/-- context.WithValue(ctx, key, value) calls of Connect, in order -/\ndef connectWithValues : List (String × String) := %s\n\n", pairList(withValues, true))
+	fmt.Fprintf(&b, "/-- appends to the endpoint context / cancel slices in Connect, in order -/\ndef connectAppends : List (String × String) := %s\n\n", pairList(appends, true))
+	fmt.Fprintf(&b, "/-- body of DisconnectWs(idx) -/\ndef disconnectWsBody : String := %s\n\n", ex.LeanStr(disc))
+	b.WriteString("/-- how SubscribeEvent calls the table entries -/\ndef subscribeTableCalls : List String := [")
+	for i, c := range tableCalls {
+		if i > 0 {
+			b.WriteString(", ")
+		}
+		b.WriteString(ex.LeanStr(c))
 	}
 	b.WriteString("]\n\n")
 	b.WriteString("/-- the list the node passes to SubscribeEvent (dosnode/dos_chain_handler.go) -/\ndef subscribed : List String := [")
